@@ -89,7 +89,8 @@ def contention_case(draw, d):
     kind = draw(st.sampled_from(['last-units', 'last-units', 'vs-inventory',
                                  'move-vs-put', 'traitagg-vs-alloc',
                                  'reshape-vs-alloc', 'same-consumer',
-                                 'vs-delete', 'double-submit']))
+                                 'vs-delete', 'double-submit',
+                                 'tree-race']))
     v = versions_cg(draw)
     free_cons = [c for c in gen.CONS if c not in d.consumers]
     held = sorted(d.consumers)
@@ -108,6 +109,54 @@ def contention_case(draw, d):
         b = [a for a in ok if 2 * a > int(gen.free_for(d, rp, rc, (c,)))]
         return draw(st.sampled_from(b or ok or [1]))
 
+    if kind == 'tree-race':
+        # structural requests around one provider P: delete it, give it a
+        # child, move another (sub)tree under it, move P itself
+        free = gen.free_uuids(d)
+        leaves = sorted(u for u in d.providers if not d.children(u) and
+                        not any(p == u for (_c, p, _k) in d.allocations))
+        P = draw(st.sampled_from(leaves or sorted(d.providers)))
+        vv = (1, draw(st.sampled_from([39, 37, 36, 14])))
+        opts = ['delete', 'child', 'adopt', 'move']
+        picks = draw(st.lists(st.sampled_from(opts), min_size=2, max_size=3,
+                              unique=True))
+        for name, what in zip('ABC', picks):
+            if what == 'delete':
+                reqs[name] = gen.R('DELETE', '/resource_providers/' + P, vv,
+                                   None, 'delete_rp', [], target=P)
+            elif what == 'child' and free:
+                u = free.pop(0)
+                reqs[name] = gen.R('POST', '/resource_providers', vv,
+                                   {'name': 'race-' + u[:8], 'uuid': u,
+                                    'parent_provider_uuid': P},
+                                   'create_rp', [])
+            elif what == 'adopt':
+                others = [x for x in sorted(d.providers) if x != P and
+                          P not in gen.descendants(d, x) and
+                          d.providers[x]['parent'] != P and
+                          (vv >= (1, 37) or d.providers[x]['parent'] is None)]
+                if not others:
+                    continue
+                x = draw(st.sampled_from(others))
+                reqs[name] = gen.R('PUT', '/resource_providers/' + x, vv,
+                                   {'name': d.providers[x]['name'],
+                                    'parent_provider_uuid': P},
+                                   'update_rp', [], target=x)
+            elif what == 'move':
+                others = [x for x in sorted(d.providers) if x != P and
+                          x not in gen.descendants(d, P) and
+                          d.providers[P]['parent'] != x]
+                if not others or (vv < (1, 37) and
+                                  d.providers[P]['parent'] is not None):
+                    continue
+                x = draw(st.sampled_from(others))
+                reqs[name] = gen.R('PUT', '/resource_providers/' + P, vv,
+                                   {'name': d.providers[P]['name'],
+                                    'parent_provider_uuid': x},
+                                   'update_rp', [], target=P)
+        if len(reqs) < 2:
+            return None
+        return {n: r for n, r in zip('ABC', [reqs[k] for k in sorted(reqs)])}
     if kind == 'double-submit':
         # one generation-guarded provider update submitted twice (and
         # sometimes an allocation write on the same provider)
